@@ -30,9 +30,11 @@ CUSTOM_VALUE_MAP = {"type": ["int", "tup", "person", "obj", "wrap"]}
 IDENTITY_HASHED = ("w", "o", "f")
 
 
-def _interning_deser(w: World, cache: dict):
+def _interning_deser(w: World, cache: dict, consume=False):
     """Inverse of the serialising mapper; equal stored values give one object
-    (so identity-hashed data keeps its clone groups)."""
+    (so identity-hashed data keeps its clone groups).  `consume`: the mapper
+    uses up the entry dict it was handed (pops everything), as a mapper doing
+    `Cls(**data)` would."""
 
     def deser(parent, data):
         w.fault.tick("mapper")
@@ -59,7 +61,13 @@ def _interning_deser(w: World, cache: dict):
             return cache[key]
         return deser(parent, data)
 
-    return deser_any
+    def deser_consume(parent, data):
+        try:
+            return deser_any(parent, data)
+        finally:
+            data.clear()
+
+    return deser_consume if consume else deser_any
 
 
 def _ser(w: World, style="inplace_ret"):
@@ -115,7 +123,7 @@ def cleanup_world(w: World):
 def _effective_maps(w: World, flavour: str, cls, key_map_opt, value_map_opt, kinds):
     """-> (save kwargs, expected header key_map, expected header value_map)"""
     kw = {}
-    typed = flavour in ("typed", "tsub")
+    typed = flavour in ("typed", "tsub", "thook")
     if key_map_opt == "default":
         exp_k = dict(cls.DEFAULT_KEY_MAP)
     elif key_map_opt == "off":
@@ -348,8 +356,13 @@ def plan_restart(w: World, op: dict) -> Plan:
                                 f"zip method {method}, requested {want}", trigger)
         else:
             text = state["fp"].getvalue()
-        check_written_document(w, text, mt, exp_key_map=exp_k, exp_value_map=exp_v,
-                               user_meta=user_meta, trigger=trigger)
+        pending = []
+        try:
+            check_written_document(w, text, mt, exp_key_map=exp_k, exp_value_map=exp_v,
+                                   user_meta=user_meta, trigger=trigger)
+        except Violation as v12:
+            # keep going: what load() makes of the file is C05's own question
+            pending.append(v12)
         # 2. crash: every live object is dropped, only the bytes survive
         old_groups = _partition(mt)
         w.unbind_slot(si)
@@ -359,7 +372,7 @@ def plan_restart(w: World, op: dict) -> Plan:
         file_meta = {}
         lkw = {"file_meta": file_meta}
         if not class_style and not no_mapper:
-            lkw["mapper"] = _interning_deser(w, {})
+            lkw["mapper"] = _interning_deser(w, {}, consume=op.get("deser_style") == "consume")
         try:
             if target_kind == "path":
                 loaded = load_cls.load(state["path"], **lkw)
@@ -369,22 +382,31 @@ def plan_restart(w: World, op: dict) -> Plan:
                 fp2.seek(0)
                 loaded = load_cls.load(fp2, **lkw)
         except Exception as e:  # noqa: BLE001
-            raise Violation("C05", "load-raised",
+            v05 = Violation("C05", "load-raised",
                             f"load() of the file just saved raised {type(e).__name__}: {e}",
-                            trigger) from None
+                            trigger)
+            v05.also = pending
+            raise v05 from None
         finally:
             if target_kind == "path":
                 try:
                     os.unlink(state["path"])
                 except OSError:
                     pass
-        _adopt_loaded(w, si, loaded, mt, op, "C05", trigger, old_groups,
-                      want_class=load_cls)
-        for k, v in (user_meta or {}).items():
-            if file_meta.get(k) != v:
-                raise Violation("C05", "file-meta", f"user meta {k!r} not handed back", trigger)
-        if not str(file_meta.get("$generator", "")).startswith("nutree/"):
-            raise Violation("C05", "file-meta", "stored header not handed back", trigger)
+        try:
+            _adopt_loaded(w, si, loaded, mt, op, "C05", trigger, old_groups,
+                          want_class=load_cls)
+            for k, v in (user_meta or {}).items():
+                if file_meta.get(k) != v:
+                    raise Violation("C05", "file-meta", f"user meta {k!r} not handed back",
+                                    trigger)
+            if not str(file_meta.get("$generator", "")).startswith("nutree/"):
+                raise Violation("C05", "file-meta", "stored header not handed back", trigger)
+        except Violation as v05:
+            v05.also = pending
+            raise
+        if pending:
+            raise pending[0]
 
     if _has_equal_valued_distinct_identity_objects(mt):
         return Plan(EXCLUDED, why="distinct identity-hashed objects with equal stored value")
@@ -445,6 +467,8 @@ def _adopt_loaded(w: World, si: int, loaded, mt, op, owner, trigger, old_groups,
     # re-bind: new uids, new data objects, ids as loaded
     if mt.flavour in ("hook", "fwd") or plain_result:
         mt.flavour = "plain"
+    elif mt.flavour == "thook":
+        mt.flavour = "typed"  # the loading class has no id callback; ids are stored
     for mc, rc in pairs:
         mc.uid = uidgen()
         mc.meta = None  # node metadata is not part of what C05/C14 promise
